@@ -157,13 +157,20 @@ class Walker(ast.NodeVisitor):
     # -- (b) guards
     @staticmethod
     def _reaction(node):
-        """alert / exception of the first statement of an if body"""
-        for s in ast.walk(ast.Module(body=node.body, type_ignores=[])):
-            if isinstance(s, ast.Call) and isinstance(s.func, ast.Attribute) and s.func.attr == '_sendError' and s.args:
-                return 'alert ' + src(s.args[0])
+        """what the body of the if does: an alert counts only when the _sendError generator is actually driven
+        (`for x in self._sendError(...): yield x`); a bare call of a generator function does nothing"""
+        body = ast.Module(body=node.body, type_ignores=[])
+        for s in ast.walk(body):
+            if isinstance(s, ast.For) and isinstance(s.iter, ast.Call) and isinstance(s.iter.func, ast.Attribute) \
+                    and s.iter.func.attr == '_sendError' and s.iter.args \
+                    and any(isinstance(y, (ast.Yield, ast.YieldFrom)) for y in ast.walk(s)):
+                return 'alert ' + src(s.iter.args[0])
             if isinstance(s, ast.Raise) and s.exc is not None:
                 e = s.exc
                 return 'raise ' + src(e.func if isinstance(e, ast.Call) else e)
+        for s in ast.walk(body):
+            if isinstance(s, ast.Call) and isinstance(s.func, ast.Attribute) and s.func.attr == '_sendError':
+                return 'UNDRIVEN ' + src(s)[:60]
         return 'none'
 
     @staticmethod
@@ -351,9 +358,31 @@ def vz(v):
     return v[0] * 256 + v[1]
 
 
+def undriven_generator_calls(trees):
+    """every expression statement that merely CALLS a generator method of these files (the call builds a generator
+    object and runs nothing): (file, function, call text).  Expected: none."""
+    gens = set()
+    for rel, tree in trees:
+        for n in ast.walk(tree):
+            if isinstance(n, (ast.FunctionDef, ast.AsyncFunctionDef)) and \
+                    any(isinstance(x, (ast.Yield, ast.YieldFrom)) for x in ast.walk(n)):
+                gens.add(n.name)
+    rows = []
+    for rel, tree in trees:
+        for fn in ast.walk(tree):
+            if not isinstance(fn, (ast.FunctionDef, ast.AsyncFunctionDef)):
+                continue
+            for n in ast.walk(fn):
+                if isinstance(n, ast.Expr) and isinstance(n.value, ast.Call) and \
+                        isinstance(n.value.func, ast.Attribute) and n.value.func.attr in gens:
+                    rows.append((rel, fn.name, src(n.value)[:100]))
+    return sorted(set(rows))
+
+
 class Sites(object):
     def translate(self):
         hs, gs, shs, pos, chs, sus = [], [], [], [], [], []
+        trees = []
         for rel in FILES:
             path = os.path.join(REPO, rel)
             try:
@@ -365,6 +394,7 @@ class Sites(object):
             for a in ANCHOR_FUNCS[rel]:
                 if a not in names:
                     raise Refuse('anchor function %s missing from %s' % (a, rel))
+            trees.append((rel, tree))
             if rel.endswith('tlsconnection.py'):
                 self._check_rows = sentinel_check_rows(tree)
                 self._write_rows, self._write_fns = sentinel_write_rows(tree)
@@ -399,6 +429,9 @@ class Sites(object):
         out.append('].\n')
         out.append('Definition client_hello_sites : list (string * string * string * string * string * string) := [')
         out.append(';\n'.join('  (%s, %s, %s, %s, %s, %s)' % tuple(sl(x) for x in r) for r in chs))
+        out.append('].\n')
+        out.append('Definition undriven_generator_calls : list (string * string * string) := [')
+        out.append(';\n'.join('  (%s, %s, %s)' % tuple(sl(x) for x in r) for r in undriven_generator_calls(trees)))
         out.append('].\n')
         out.append('Definition sentinel_check_table : list (Z * Z * Z * bool * Z) := [')
         out.append(';\n'.join('  (%d, %d, %d, %s, %d)' % (vz(a), vz(b), c, 'true' if d else 'false', e)
